@@ -302,10 +302,14 @@ func chanRulesFiltered(c *cx, id string, scope []*eng.Fn, why map[*eng.Fn]string
 					}
 				}
 				if nm > 0 && allBuf {
-					ok, wy = true, "every make of this class has capacity >= 1"
+					if once, reason := sentOncePerMake(c, op, cls, byClass[cls]); once {
+						ok, wy = true, "every make of this class has capacity >= 1 and the channel gets at most one send per make: "+reason
+					} else {
+						wy = "capacity >= 1 alone does not make a plain send non-blocking: " + reason
+					}
 				}
 			}
-			c.r.Check(id+"a", op.fn, "blocking "+op.kind+" on "+cls, "every channel operation on the serve path has an escape arm or is non-blocking ("+wy+")", op.node.Pos(), ok, "unguarded blocking "+op.kind+" in handler code: the serve loop stalls until another goroutine is ready; reached via "+why[op.fn])
+			c.r.Check(id+"a", op.fn, "blocking "+op.kind+" on "+cls, "every channel operation on the serve path has an escape arm or is non-blocking ("+wy+")", op.node.Pos(), ok, wy+"; unguarded blocking "+op.kind+" in handler code: the serve loop stalls until another goroutine is ready; reached via "+why[op.fn])
 		}
 	}
 	if prefix == "" {
@@ -359,4 +363,98 @@ func chanRulesFiltered(c *cx, id string, scope []*eng.Fn, why map[*eng.Fn]string
 			}
 		}
 	}
+}
+
+// sentOncePerMake: a plain send on a buffered channel cannot block if the
+// channel receives at most one send after it was made. Evidence accepted: the
+// channel is taken from a table entry (v, ok := T[k]) that is deleted from the
+// table on every path between the lookup and the send (so no second send finds
+// it), and every store into T stores an entry whose channel was made in the
+// same function on every path to the store (a fresh channel per registration).
+func sentOncePerMake(c *cx, op chanOp, cls string, classOps []chanOp) (bool, string) {
+	f := op.fn
+	g := f.Graph()
+	snd, ok := op.node.(*ast.SendStmt)
+	if !ok {
+		return false, "not a send statement"
+	}
+	pt, okp := g.Where(snd)
+	root := rootIdent(snd.Chan)
+	if !okp || root == nil {
+		return false, "the channel is not reached through a local"
+	}
+	v, _ := f.Info().ObjectOf(root).(*types.Var)
+	if v == nil {
+		return false, "the channel is not reached through a local"
+	}
+	defs := g.ReachingDefs(v, pt)
+	if len(defs) == 0 {
+		return false, "no definition of " + v.Name() + " reaches the send"
+	}
+	table := ""
+	for _, d := range defs {
+		ix, isIx := ast.Unparen(d.RHS).(*ast.IndexExpr)
+		if d.RHS == nil || !isIx || (d.Kind != eng.DefCommaOk && d.Kind != eng.DefPlain) || d.Index != 0 {
+			return false, "the channel does not come from a table lookup"
+		}
+		t, okt := f.FieldClass(ix.X)
+		if !okt || (table != "" && t != table) {
+			return false, "the channel does not come from a table held in a field"
+		}
+		table = t
+		isDel := func(q eng.Point, nd ast.Node) bool {
+			found := false
+			ast.Inspect(nd, func(x ast.Node) bool {
+				if cl, ok := x.(*ast.CallExpr); ok && f.CalleeID(cl) == "builtin.delete" && len(cl.Args) == 2 {
+					if k, _ := f.FieldClass(cl.Args[0]); k == table {
+						found = true
+					}
+				}
+				return !found
+			})
+			return found
+		}
+		if !g.MustPassBefore(g.After(d.At), pt, isDel, nil) {
+			return false, "the entry is not removed from " + table + " on every path between the lookup and the send (a second send can find the same channel)"
+		}
+	}
+	// every registration stores a fresh channel
+	nstores := 0
+	for _, sf := range c.allFns() {
+		for _, mu := range sf.MapUpdates() {
+			if mu.Delete {
+				continue
+			}
+			if k, _ := sf.FieldClass(mu.Map); k != table {
+				continue
+			}
+			nstores++
+			sg := sf.Graph()
+			spt, oks := sg.Where(mu.Node)
+			if !oks {
+				return false, "store into " + table + " not located"
+			}
+			var makes []ast.Node
+			for _, m := range chanOps(sf) {
+				if m.kind == "make" && (m.class == cls || strings.HasPrefix(m.class, "local:")) {
+					makes = append(makes, m.node)
+				}
+			}
+			isMake := func(q eng.Point, nd ast.Node) bool {
+				for _, m := range makes {
+					if containsNode(nd, m) {
+						return true
+					}
+				}
+				return false
+			}
+			if len(makes) == 0 || !(isMake(spt, mu.Node) || sg.MustPassBefore(sg.Entry(), spt, isMake, nil)) {
+				return false, sf.Short + " stores an entry into " + table + " (" + c.p.Pos(mu.Node.Pos()) + ") without making a new channel first: the same channel can be registered, and sent to, again"
+			}
+		}
+	}
+	if nstores == 0 {
+		return false, "no store into " + table + " found"
+	}
+	return true, "taken out of " + table + " before the send; every registration makes a new channel"
 }
